@@ -1552,6 +1552,7 @@ void base_str<CharT>::strip(void)
     size_t i;
 
     if (m_data == nullptr || m_data->data() == nullptr) return;
+    EnsureDataWritable();
     s = m_data->data();
     while (isspace((int)*s) && *s) s++;
 
@@ -1569,8 +1570,6 @@ void base_str<CharT>::strip(void)
     {
         m_data->data()[i] = s[i];
     }
-
-    EnsureDataWritable();
 }
 
 template<typename CharT>
